@@ -1163,5 +1163,6 @@ class NLDFNLOFNumInt(_NLDFMixin, _FLNumIntMixin, CiderNumInt):
             self.nldfgen = self.nldf_init.initialize_nldf_generator(
                 mol, grids.grids_indexer, nspin
             )
+            self.nldfgen.interpolator.set_coords(grids.coords)
         super().initialize_feature_generators(mol, grids, nspin)
         self.grids = grids
